@@ -88,3 +88,22 @@ MUTATIONS += [
      "        self._request_callbacks[seq] = callback\n        try:\n            self._send(consts.MSG_REQUEST, seq, (handler, self._box(args)))",
      "        try:\n            self._send(consts.MSG_REQUEST, seq, (handler, self._box(args)))\n            self._request_callbacks[seq] = callback"),
 ]
+
+N = "rpyc/core/netref.py"
+V = "rpyc/core/vinegar.py"
+MUTATIONS += [
+    # ---- C01: calls, boxing
+    ("handle-call-drops-kwargs", ["C01"], P, "        return obj(*args, **dict(kwargs))", "        return obj(*args)"),
+    ("box-tuple-not-recursive", ["C01", "C03"], P, "            return consts.LABEL_TUPLE, tuple(self._box(item) for item in obj)",
+     "            return consts.LABEL_TUPLE, tuple((consts.LABEL_VALUE, item) if brine.dumpable(item) else self._box(list(item) if type(item) is tuple else item) for item in obj)"),
+    ("unbox-tuple-as-list", ["C01", "C03"], P, "            return tuple(self._unbox(item) for item in value)", "            return list(self._unbox(item) for item in value)"),
+    ("netref-call-drops-kwargs", ["C01"], N, "            kwargs = tuple(kwargs.items())\n            return syncreq(_self, consts.HANDLE_CALL, args, kwargs)",
+     "            kwargs = ()\n            return syncreq(_self, consts.HANDLE_CALL, args, kwargs)"),
+    ("netref-callattr-kwargs-values-only", ["C02"], N, "            kwargs = tuple(kwargs.items())\n            return syncreq(_self, consts.HANDLE_CALLATTR, name, args, kwargs)",
+     "            kwargs = tuple(sorted(kwargs.items()))[:1]\n            return syncreq(_self, consts.HANDLE_CALLATTR, name, args, kwargs)"),
+    ("dispatch-exception-runs-handler-twice", ["C01", "C08"], P, "            res = self._HANDLERS[handler](self, *args)\n        except:",
+     "            try:\n                res = self._HANDLERS[handler](self, *args)\n            except KeyError:\n                res = self._HANDLERS[handler](self, *args)\n        except:"),
+    ("vinegar-everything-generic", ["C01", "C09"], V, "    elif modname == exceptions_module.__name__:\n        cls = getattr(exceptions_module, clsname, None)",
+     "    elif modname == exceptions_module.__name__ and clsname not in ('KeyError', 'IndexError'):\n        cls = getattr(exceptions_module, clsname, None)"),
+    ("vinegar-args-first-only", ["C01", "C09"], V, "    exc.args = args\n", "    exc.args = args[:1]\n"),
+]
